@@ -220,8 +220,23 @@ def obj_spec(draw, inv: Inv, k, depth=0, mode=None, only=None, rich=True):
         f.name == "additional_avps" for f in (dataclasses.fields(k) if dataclasses.is_dataclass(k) else ()))
     if has_extra_api and draw(st.integers(0, 3)) == 0:
         declared = {(d.avp_code, d.vendor_id) for d in k.avp_def if hasattr(d, "avp_code")}
+        dcodes = sorted({c for c, _ in declared})
         for _ in range(draw(st.integers(1, 2))):
-            a = draw(S.avp_spec(inv.D, 2, 4, 32, small=True))
+            if dcodes and draw(st.booleans()):
+                # same code as a declared attribute under another vendor: must be
+                # carried over, not mistaken for the declared AVP
+                code = draw(st.sampled_from(dcodes))
+                vendor = draw(st.sampled_from([0, 10415, 99999, 13019, 5535]))
+                if (code, vendor) in declared:
+                    continue
+                if (code, vendor) in inv.D.by_key:
+                    e = inv.D.by_key[(code, vendor)]
+                    a = draw(S.avp_spec(inv.D, 2, 4, 32, small=True, entry=(code, vendor, e[0])))
+                else:
+                    a = {"code": code, "vendor": vendor, "m": draw(S.MP), "p": None,
+                         "v": draw(S.value_spec("untyped", 24))}
+            else:
+                a = draw(S.avp_spec(inv.D, 2, 4, 32, small=True))
             if (a["code"], a["vendor"]) not in declared:
                 extra.append(a)
     return {"cls": k.__name__, "attrs": attrs, "extra": extra}
@@ -463,6 +478,7 @@ def check_typed(inv: Inv, spec, rec: Recorder, mode: str):
     nt = fp(hash(buf)) if spec["attrs"] else None
     rec.case(nt, [f"mode:{mode}", "kind:message" if is_msg else "kind:container"] +
              (["with-extra"] if spec["extra"] else []) +
+             (["extra-code-collision"] if {a["code"] for a in spec["extra"]} & {d.avp_code for d in k.avp_def if hasattr(d, "avp_code")} else []) +
              ([f"nest:{spec_nest(spec)}"]),
              sample=lambda: {"spec": spec, "wire": buf.hex()[:200]})
     for name in spec["attrs"]:
@@ -641,7 +657,7 @@ def run(tier, scale=1.0):
     if missing:
         rec.extra["definitions_not_covered"] = [".".join(m) for m in missing[:20]]
     required = {"mode:single": 1, "mode:subset": 1, "mode:all": 1, "mode:none": 1, "kind:container": 1,
-                "kind:message": 1, "kind:untyped": 1, "with-extra": 1, "nest:4": 1,
+                "kind:message": 1, "kind:untyped": 1, "with-extra": 1, "extra-code-collision": 1, "nest:4": 1,
                 "untyped:repeat": 1, "untyped:grouped": 1}
     rc = finish(rec, tier=tier, level="exploration", rule=RULE, assumptions=ASSUME, t0=t0,
                 required_classes=required,
